@@ -180,3 +180,52 @@ PLAN["C13"] = dict(
         J("retain", "native", ["c13", "--rounds", q(t, 150, 5000)], shards=q(t, 8, 12), budget_s=q(t, 30, 600), parallel=q(t, 8, 12)),
     ],
 )
+
+# ---- Miri litmus programs: (name, argv) ; modes: 0 uniform 1 identity 2 constant 3 samebin 5 mixed 6 splitting
+LIT = {
+    "tree-mix3": ["mix3", 2, 64, 12, 10],
+    "tree-readers": ["readers", 2, 64, 12, 8],
+    "tree-samebin-mix4": ["mix4", 3, 64, 11, 8],
+    "tree-grow-from-0": ["mix3", 2, 0, 0, 12],
+    "list-mix3": ["mix3", 0, 2, 4, 14],
+    "list-mix4": ["mix4", 0, 1, 3, 10],
+    "init-race": ["init", 0, 0, 0, 6],
+    "grow": ["grow", 0, 1, 0, 8],
+    "split-trees": ["mix4", 6, 64, 20, 8],
+}
+
+
+def miri_jobs(names, seeds_each, shards_each):
+    return [J(n, "miri", LIT[n], shards=shards_each, seeds=(0, seeds_each), budget_s=60 + seeds_each * 25 // max(1, shards_each)) for n in names]
+
+
+PLAN["C11"] = dict(
+    level="exploration",
+    engines=["Miri (deadlock detection, weak-memory emulation, seeded scheduler) on litmus programs", "quiescent lock-state audit of the free-run rounds (C05) and the parked-writer scenario of C12"],
+    assumptions=[
+        "liveness is restated as bounded progress: a finite program run by Miri's fair seeded scheduler ends, and no execution reaches a state in which every unfinished thread is blocked",
+        "Miri explores one schedule per seed; quick is a smoke test, thorough the real exploration (the F6 lost wakeup needed seeds 16 and 131 of 384 on one program)",
+    ],
+    miri_classes=["deadlock"],
+    require={},
+    require_prefix={"miri_seeds_": 8},
+    jobs=lambda t: miri_jobs(["tree-mix3", "tree-readers", "init-race", "grow"], q(t, 12, 256), q(t, 4, 16))
+    + miri_jobs(["tree-samebin-mix4", "tree-grow-from-0", "list-mix4"], q(t, 4, 128), q(t, 1, 16))
+    + [J("f6-regression-seed16", "miri", LIT["tree-mix3"], shards=1, seeds=(16, 17), budget_s=90, absolute_seeds=True),
+       J("f6-regression-seed131", "miri", LIT["tree-mix3"], shards=1, seeds=(131, 132), budget_s=90, absolute_seeds=True)],
+)
+
+PLAN["C15"] = dict(
+    level="exploration",
+    engines=["Miri data-race detector (vector clocks over the orderings the code really uses) with weak-memory emulation on payload-carrying litmus programs"],
+    assumptions=[
+        "threads of a litmus program communicate only through the map, so any happens-before edge between a payload's initialisation and its read comes from flurry (or seize)",
+        "an execution counts only if a reader really obtained a payload written by another thread (cross_thread_* counters)",
+        "Miri samples schedules and does not emulate every relaxed behaviour; under Miri num_cpus() is 1, so multi-helper resizes are not exercised here",
+    ],
+    miri_classes=["data-race", "ub"],
+    require={},
+    require_prefix={"miri_seeds_": 8},
+    jobs=lambda t: miri_jobs(["list-mix3", "tree-mix3", "grow", "split-trees"], q(t, 12, 256), q(t, 4, 16))
+    + miri_jobs(["tree-samebin-mix4", "list-mix4", "tree-grow-from-0", "init-race"], q(t, 4, 128), q(t, 1, 16)),
+)
